@@ -195,7 +195,10 @@ Section SeqProbe.
     let* its := iter x in
     let* ps := mapM (probe W) its in
     let* o := own_seq x in
-    Ok (UL [unat n; ubool e; UL gets; UL ps; UL (map (to_u W) o)]).
+    (* positions usize::MAX - j, j < 6: not computable with unary positions; the model's answer
+       for them is the theorem C13 ([get k] panics for EVERY k >= len) *)
+    let far := repeat UNone 6 in
+    Ok (UL [unat n; ubool e; UL gets; UL far; UL ps; UL (map (to_u W) o)]).
 End SeqProbe.
 
 Definition m_slice (M : MRegion) (O : IC (idx (mr M))) : MRegion := {|
